@@ -251,4 +251,84 @@ theorem shuffle_comm (r s : Rx L) (w : List σ) :
     Lang m (.shuffle r s) w ↔ Lang m (.shuffle s r) w := by
   constructor <;> rintro ⟨u, v, hw, h1, h2⟩ <;> exact ⟨v, u, interleave_comm hw, h2, h1⟩
 
+/-- `included` is only answered with a closed certificate that contains the start pair. -/
+theorem inclDecide_included [DecidableEq L] (sig : List σ) (fuel : Nat) (d b : Rx L)
+    (h : inclDecide m sig fuel d b = .included) :
+    ∀ w : List σ, (∀ c ∈ w, c ∈ sig) → Lang m d w → Lang m b w := by
+  unfold inclDecide inclRun at h
+  split at h
+  · simp at h
+  · simp only at h; split at h <;> simp at h
+  · rename_i S _
+    simp only at h
+    split at h
+    · rename_i hc
+      simp only [Bool.and_eq_true, Bool.or_eq_true] at hc
+      intro w hw hd
+      rcases hc.2 with he | hm
+      · exact absurd hd (isEmpty_sound m d he w)
+      · exact closed_sound m sig S hc.1 w hw d b (by simpa using hm) hd
+    · simp at h
+
+/-- a returned witness is a word of `d` that is not a word of `b`. -/
+theorem inclDecide_witness [DecidableEq L] (sig : List σ) (fuel : Nat) (d b : Rx L) (w : List σ)
+    (h : inclDecide m sig fuel d b = .witness w) : Lang m d w ∧ ¬ Lang m b w := by
+  unfold inclDecide inclRun at h
+  split at h
+  · simp at h
+  · rename_i w' _
+    simp only at h
+    split at h
+    · rename_i hc
+      simp only [InclVerdict.witness.injEq] at h
+      subst h
+      simp only [Bool.and_eq_true, Bool.not_eq_true'] at hc
+      refine ⟨(accepts_iff m d w').mp hc.1, ?_⟩
+      intro hb
+      have := (accepts_iff m b w').mpr hb
+      rw [hc.2] at this; cases this
+    · simp at h
+  · simp only at h; split at h <;> simp at h
+
+/-! ### repetition of a single symbol (leaf particles) -/
+
+theorem rep_sym_iff (a : L) (lo : Nat) (hi : Option Nat) (w : List σ) :
+    Lang m (.rep (.sym a) lo hi) w ↔ lo ≤ w.length ∧ leHi w.length hi ∧ ∀ c ∈ w, m a c = true := by
+  constructor
+  · rintro ⟨ws, rfl, hlo, hhi, hall⟩
+    have key : ∀ ws : List (List σ), (∀ x ∈ ws, Lang m (.sym a) x) →
+        ws.flatten.length = ws.length ∧ ∀ c ∈ ws.flatten, m a c = true := by
+      intro ws
+      induction ws with
+      | nil => intro _; simp
+      | cons x t ih =>
+        intro h
+        obtain ⟨c, rfl, hc⟩ := h x (by simp)
+        have := ih (fun y hy => h y (by simp [hy]))
+        refine ⟨by simp [this.1], ?_⟩
+        intro c' hc'
+        simp only [List.flatten_cons, List.cons_append, List.nil_append, List.mem_cons] at hc'
+        rcases hc' with rfl | hc'
+        · exact hc
+        · exact this.2 c' hc'
+    obtain ⟨h1, h2⟩ := key ws hall
+    rw [h1]
+    exact ⟨hlo, hhi, h2⟩
+  · rintro ⟨hlo, hhi, hall⟩
+    refine ⟨w.map (fun c => [c]), ?_, by simpa using hlo, by simpa using hhi, ?_⟩
+    · induction w with
+      | nil => rfl
+      | cons c t ih =>
+        simp only [List.map_cons, List.flatten_cons, List.cons_append, List.nil_append]
+        rw [← ih (fun x hx => hall x (by simp [hx]))]
+    · intro x hx
+      obtain ⟨c, hc, rfl⟩ := List.mem_map.mp hx
+      exact ⟨c, rfl, hall c hc⟩
+
+/-- `rep` is monotone in its range. -/
+theorem rep_mono_range {x : Rx L} {lo lo' : Nat} {hi hi' : Option Nat} (hlo : lo' ≤ lo)
+    (hhi : ∀ n, leHi n hi → leHi n hi') : ∀ w, Lang m (.rep x lo hi) w → Lang m (.rep x lo' hi') w := by
+  rintro w ⟨ws, hw, h1, h2, hall⟩
+  exact ⟨ws, hw, Nat.le_trans hlo h1, hhi _ h2, hall⟩
+
 end XsVerif.Rx
